@@ -53,6 +53,8 @@ def one_case(rng, tier):
         for nm in names:
             sched.append([rng.choice([0, 0, 0.3, 1.0, 1.0, 2.5]), nm])
         return {'kind': 'filenames', 'schedule': sched, 'glob': rng.random() < 0.5, 'poll': 1.0,
+                # how the directory / pattern is spelled: 'dir', 'dir/' (trailing separator), 'dir/*.dat', 'dir/???.dat'
+                'path_form': rng.choice(['dir', 'dir_slash', 'glob', 'glob_q']),
                 'preexisting': rng.randrange(0, 3),
                 # the consumer stops the source while a batch is being delivered and it is started again later
                 'stop_on_delivery': rng.randrange(0, n) if rng.random() < 0.4 else None,
@@ -190,7 +192,10 @@ def check_case(case, counters, sets):
                     interesting = len(exp) >= 2 and inside
                     sets.setdefault('delimiters', set()).add(repr(d))
                 else:
-                    pat = os.path.join(tmp, '*.dat') if case['glob'] else tmp
+                    form = case.get('path_form') or ('glob' if case['glob'] else 'dir')
+                    pat = {'glob': os.path.join(tmp, '*.dat'), 'dir': tmp, 'dir_slash': tmp + os.path.sep,
+                           'glob_q': os.path.join(tmp, '???.dat')}[form]
+                    sets.setdefault('filenames_path_forms', set()).add(form)
                     for i in range(case['preexisting']):
                         open(os.path.join(tmp, 'p%02d.dat' % i), 'w').close()
                     cycles = {'n': 0}
